@@ -14,7 +14,7 @@
 (*      space:  bytes_trim_{start,end} one byte per iteration;             *)
 (*              bytes_trim = trim_start(trim_end(this))                    *)
 (***************************************************************************)
-EXTENDS Common, Utf8, TLC
+EXTENDS Common, Utf8, StripTrimRef, TLC
 
 CONSTANTS Inputs        \* set of <<s, n>> pairs (n ignored by the whitespace ops)
 
@@ -25,25 +25,7 @@ Ops      == PatOps \cup SpaceOps
 
 -----------------------------------------------------------------------------
 (* R *)
-IsAsciiWs(b) == b \in {9, 10, 12, 13, 32}       \* u8::is_ascii_whitespace
-
-StripPrefix(s, n) == IF IsPrefixOf(n, s) THEN Some(From(s, Len(n))) ELSE None
-StripSuffix(s, n) == IF IsSuffixOf(n, s) THEN Some(UpTo(s, Len(s) - Len(n))) ELSE None
-
-\* maximal number of whole repetitions of n at the start / end of s
-RepsStart(s, n) == SetMax({k \in 0..Len(s) : IsPrefixOf(Repeat(n, k), s)})
-RepsEnd(s, n)   == SetMax({k \in 0..Len(s) : IsSuffixOf(Repeat(n, k), s)})
-TrimStartM(s, n) == IF n = <<>> THEN s ELSE From(s, Len(n) * RepsStart(s, n))
-TrimEndM(s, n)   == IF n = <<>> THEN s ELSE UpTo(s, Len(s) - Len(n) * RepsEnd(s, n))
-
-WsStart(s) == IF \A i \in 1..Len(s) : IsAsciiWs(s[i]) THEN Len(s)
-              ELSE SetMin({i \in 1..Len(s) : ~IsAsciiWs(s[i])}) - 1      \* number of leading ws bytes
-WsEnd(s)   == IF \A i \in 1..Len(s) : IsAsciiWs(s[i]) THEN Len(s)
-              ELSE Len(s) - SetMax({i \in 1..Len(s) : ~IsAsciiWs(s[i])})  \* number of trailing ws bytes
-TrimStartWs(s) == From(s, WsStart(s))
-TrimEndWs(s)   == UpTo(s, Len(s) - WsEnd(s))
-TrimWs(s)      == TrimStartWs(TrimEndWs(s))
-
+\* StripPrefix, TrimStartM, TrimWs, ...: see StripTrimRef.tla
 \* Both-ends pattern trimming is only specified where the order of the two ends is immaterial
 \* (std offers trim_matches only for such patterns).
 Specified(op, s, n) ==
